@@ -733,6 +733,63 @@ def check_refusal(case):
 
 # ------------------------------------------------------------------ facets
 
+# ------------------------------------------------------------------ facet: histories on one path / dtype mix
+
+
+@st.composite
+def history_cases(draw):
+    nrounds = draw(st.integers(2, 4))
+    rounds = []
+    for _ in range(nrounds):
+        n = draw(st.integers(1, 6))
+        rounds.append({
+            "x": draw(st.lists(any_float(), min_size=n, max_size=n)),
+            "y": draw(st.lists(st.floats(-2.0**99, 2.0**99, allow_nan=False, width=32), min_size=n, max_size=n)),
+            "var": draw(st.lists(st.floats(0, 2.0**99, allow_nan=False, width=32), min_size=n, max_size=n)),
+            "as": draw(st.sampled_from(["Path", "str"])),
+            "load_as": draw(st.sampled_from(["Path", "str"])),
+        })
+    return {"rounds": rounds, "data_dtype": draw(st.sampled_from(["float64", "float32"])),
+            "same_file": draw(st.sampled_from([True, True, False]))}
+
+
+def check_history(case):
+    """Several save/load rounds in one process, by default all on the *same* path (given as str or
+    pathlib.Path in any mix): every load must return what was saved last, not something remembered from an
+    earlier round.  Data values may be float32 while the coordinate is float64: the coordinate must still
+    come back bit for bit."""
+    import scipp as sc
+    from scippneutron.io.xye import load_xye, save_xye
+
+    labs = ["data:" + case["data_dtype"], f"rounds:{len(case['rounds'])}", "same-file" if case["same_file"] else "fresh-files"]
+    with tempfile.TemporaryDirectory(prefix="vf-c15-") as tmp:
+        for k, r in enumerate(case["rounds"]):
+            name = "data.xye" if case["same_file"] else f"data{k}.xye"
+            path = os.path.join(tmp, name)
+            x = np.asarray(r["x"], dtype=np.float64)
+            y = np.asarray(r["y"], dtype=case["data_dtype"])
+            v = np.asarray(r["var"], dtype=case["data_dtype"])
+            da = sc.DataArray(sc.array(dims=["tof"], values=y, variances=v, unit="counts", dtype=case["data_dtype"]),
+                              coords={"tof": sc.array(dims=["tof"], values=x, unit="us")})
+            save_xye(Path(path) if r["as"] == "Path" else path, da)
+            got = load_xye(Path(path) if r["load_as"] == "Path" else path, dim="tof", unit="counts", coord_unit="us")
+            where = f"round {k + 1} ({r['as']} -> {r['load_as']}, data {case['data_dtype']})"
+            _bit_compare(f"{where}: coordinate", got.coords["tof"].values, x, "coordinate")
+            _bit_compare(f"{where}: data values", got.values, y.astype(np.float64), "values")
+            if case["data_dtype"] == "float64":
+                _variance_compare(f"{where}: variances", got.variances, v.astype(np.float64))
+            else:
+                # single-precision input: a few units in the last place of *float32*
+                gv = np.asarray(got.variances, dtype=np.float64)
+                tol = VAR_ULP * np.spacing(np.abs(v).astype(np.float32)).astype(np.float64)
+                bad = np.flatnonzero(~(np.abs(gv - v.astype(np.float64)) <= tol))
+                if gv.shape != v.shape or bad.size:
+                    i = int(bad[0]) if bad.size else 0
+                    raise Violation("variance", f"{where}: variances[{i}]: got {float(gv[i])!r}, saved {float(v[i])!r} "
+                                                f"(more than {VAR_ULP} float32 ulp apart)")
+    return labs, True
+
+
 FACETS = [
     Facet("roundtrip", check_roundtrip, strategy=lambda tier: roundtrip_cases(),
           quick=(4, 250), thorough=(16, 2000), min_nontrivial=0.5,
@@ -753,6 +810,9 @@ FACETS = [
           quick=(2, 0), thorough=(16, 0), min_nontrivial=0.5,
           doc="every single and pairwise combination of unrepresentable features is refused with the "
               "pinned exception and the target (buffer, new/existing path, open file) is untouched"),
+    Facet("history", check_history, strategy=lambda tier: history_cases(),
+          quick=(2, 200), thorough=(16, 1500), min_nontrivial=0.3,
+          doc="save/load rounds on one path (str / pathlib.Path mixed), float32 data with float64 coordinate"),
 ]
 
 MATCHERS = {}
